@@ -73,9 +73,38 @@ Definition c01_scope (sw : switches) (dt : detection) : bool :=
 
 (* ---- with the matrix switch: the trees handed to `matrix` are nested-free and outside the
         classes D17 (multi-cell row in a negative position), D18/D19, D21 ---- *)
+(* every comparison with a constant on the right reads its left field: no str() / not() cast on
+   the left, `str(f) == null` excepted (it reads the field since fix D27).  Always true of what
+   the loader builds; needed because as a matrix cell a comparison reads its column first *)
+Definition cr_cmp (l : expr) (op : boolsym) (r : expr) : bool :=
+  match l with
+  | ECast _ MStr => negb (is_const r) || match op, r with BEqual, ENull => true | _, _ => false end
+  | ECast _ MNot => negb (is_const r)
+  | _ => true
+  end.
+Fixpoint cmp_reads (e : expr) : bool :=
+  match e with
+  | EGroup _ l => forallb cmp_reads l
+  | EBexp l s r => if is_and_or s then cmp_reads l && cmp_reads r else cr_cmp l s r
+  | EMatch _ e' | ENegate e' | ENested _ e' => cmp_reads e'
+  | _ => true
+  end.
+(* no quantifier at all (when identifiers are not inlined, the condition handed to matrix must
+   hold none: matrix applies shake_1 to quantifier operands) *)
+Fixpoint no_match (e : expr) : bool :=
+  match e with
+  | EGroup _ l => forallb no_match l
+  | EBexp l _ r => no_match l && no_match r
+  | EMatch _ _ => false
+  | ENegate e' | ENested _ e' => no_match e'
+  | _ => true
+  end.
+
 Definition matrix_input_ok (o : oracles) (ord : hord) (sw : switches) (dt : detection) : bool :=
   forallb no_nested (all_trees (pre_matrix o ord sw dt)) &&
-  negb (known_d17 o ord sw dt) && negb (known_d18 o ord sw dt) && negb (known_d21 o ord sw dt).
+  negb (known_d17 o ord sw dt) && negb (known_d18 o ord sw dt) && negb (known_d21 o ord sw dt) &&
+  forallb cmp_reads (all_trees (pre_matrix o ord sw dt)) &&
+  (sw_coalesce sw || no_match (fst (pre_matrix o ord sw dt))).
 
 Definition sw_without_matrix (sw : switches) : switches :=
   {| sw_coalesce := sw_coalesce sw; sw_shake := sw_shake sw; sw_rewrite := sw_rewrite sw; sw_matrix := false |}.
